@@ -153,6 +153,8 @@ class Evaluator(object):
 def _deep_equal(x, y, depth=0):
     if isinstance(x, np.ndarray) or isinstance(y, np.ndarray):
         return isinstance(x, np.ndarray) and isinstance(y, np.ndarray) and np.array_equal(x, y)
+    if isinstance(x, (list, tuple)) and isinstance(y, (list, tuple)) and depth < 4:
+        return len(x) == len(y) and all(_deep_equal(a, b, depth + 1) for a, b in zip(x, y))
     if hasattr(x, '__dict__') and hasattr(y, '__dict__') and depth < 4 and type(x).__module__.split('.')[0] in ('pyclifford', 'torchclifford'):
         dx, dy = vars(x), vars(y)
         return type(x) is type(y) and dx.keys() == dy.keys() and all(_deep_equal(dx[k], dy[k], depth + 1) for k in dx)
